@@ -318,6 +318,7 @@ func checkC20(p *Prog, r *Report) {
 	}
 
 	ruleLockReentry(p, ca, lockers, r, "R-C20-REENTRY")
+	ruleC20Clean(p, a, ca, r)
 
 	// ---- R-C20-ISO
 	r.Begin("R-C20-ISO", "per-set state is per instance: the constructor gives every map/pointer field a fresh object; Template.Options is fresh and copied into", 4)
@@ -545,4 +546,157 @@ func ruleLockReentry(p *Prog, ca *cacheAnchors, lockers []*ssa.Function, r *Repo
 		}
 	}
 
+}
+
+// ruleC20Clean: the function that empties the cache does so for the names it is given (or for everything) whatever
+// state the set is in: it clears the whole map exactly on the "no names" edge, deletes inside a loop over its
+// parameter, and none of its branch conditions reads other set state (Debug, options …).
+func ruleC20Clean(p *Prog, a *Anchors, ca *cacheAnchors, r *Report) {
+	r.Begin("R-C20-CLEAN", "CleanCache removes what it names (or everything when given no name) unconditionally: no branch of it depends on set state other than its arguments", 3)
+	var cleaners []*ssa.Function
+	for _, f := range p.Methods(a.TemplateSet) {
+		if f.Object() == nil || !f.Object().Exported() {
+			continue
+		}
+		for _, acc := range cacheAccesses(p, f, ca.cacheField) {
+			if acc.Kind == "delete" || acc.Kind == "clear" {
+				cleaners = append(cleaners, f)
+				break
+			}
+		}
+	}
+	if len(cleaners) != 1 {
+		r.Unk("cleaner", "-", "expected exactly one exported method of TemplateSet that deletes cache entries, found %d", len(cleaners))
+		return
+	}
+	f := cleaners[0]
+	name := p.FuncName(f)
+	var names *ssa.Parameter
+	for _, pa := range f.Params {
+		if sl, ok := pa.Type().Underlying().(*types.Slice); ok && types.Identical(sl.Elem(), types.Typ[types.String]) {
+			names = pa
+		}
+	}
+	if names == nil {
+		r.Unk(name+":names", p.Pos(f.Pos()), "no []string parameter")
+		return
+	}
+	// (a) clear-all on the len(names) == 0 edge only, and present
+	clearAll := false
+	for _, acc := range cacheAccesses(p, f, ca.cacheField) {
+		isClear := acc.Kind == "clear"
+		if acc.Kind == "assign" {
+			if _, ok := acc.Val.(*ssa.MakeMap); ok {
+				isClear = true
+			}
+		}
+		if !isClear {
+			continue
+		}
+		g := Guarded(acc.In, func(c ssa.Value, pol bool) bool {
+			b, ok := c.(*ssa.BinOp)
+			if !ok {
+				return false
+			}
+			k, isC := constInt(b.Y)
+			if !isC || k != 0 || lenOperand(b.X) != ssa.Value(names) {
+				return false
+			}
+			return (b.Op == token.EQL && pol) || (b.Op == token.NEQ && !pol) || (b.Op == token.GTR && !pol)
+		})
+		if g {
+			clearAll = true
+			r.OK(name+":clear-all", p.InstrPos(acc.In), "the whole cache is dropped exactly when no name is given")
+		} else {
+			r.Bad(name+":clear-all", p.InstrPos(acc.In), "the whole cache is dropped on an edge other than len(names) == 0")
+		}
+	}
+	if !clearAll {
+		r.Bad(name+":clear-all", p.Pos(f.Pos()), "CleanCache() without names no longer empties the cache")
+	}
+	// (b) delete of each named entry: inside a loop indexed over the names parameter
+	del := false
+	for _, acc := range cacheAccesses(p, f, ca.cacheField) {
+		if acc.Kind != "delete" {
+			continue
+		}
+		del = true
+		fromNames := false
+		var walk func(v ssa.Value, d int)
+		seen := map[ssa.Value]bool{}
+		walk = func(v ssa.Value, d int) {
+			if v == nil || d > 6 || seen[v] {
+				return
+			}
+			seen[v] = true
+			switch x := v.(type) {
+			case *ssa.Call:
+				for _, a := range x.Common().Args {
+					walk(a, d+1)
+				}
+			case *ssa.UnOp:
+				walk(x.X, d+1)
+			case *ssa.IndexAddr:
+				if x.X == ssa.Value(names) {
+					fromNames = true
+				}
+			case *ssa.Phi:
+				for _, e := range x.Edges {
+					walk(e, d+1)
+				}
+			}
+		}
+		walk(acc.Key, 0)
+		if fromNames {
+			r.OK(name+":delete-named", p.InstrPos(acc.In), "deletes the entry of each given name")
+		} else {
+			r.Bad(name+":delete-named", p.InstrPos(acc.In), "the deleted key %s is not derived from an element of the names parameter", p.VN(acc.Key))
+		}
+	}
+	if !del {
+		r.Bad(name+":delete-named", p.Pos(f.Pos()), "no delete of named entries")
+	}
+	// (c) no branch on other set state
+	bad := 0
+	for _, b := range f.Blocks {
+		iff, ok := b.Instrs[len(b.Instrs)-1].(*ssa.If)
+		if !ok {
+			continue
+		}
+		var fieldsRead []string
+		var walk func(v ssa.Value, d int)
+		seen := map[ssa.Value]bool{}
+		walk = func(v ssa.Value, d int) {
+			if v == nil || d > 5 || seen[v] {
+				return
+			}
+			seen[v] = true
+			if _, n, fld := fieldLoadBase(v); n != nil && n.Obj().Name() == "TemplateSet" && fld != ca.cacheField {
+				fieldsRead = append(fieldsRead, fld)
+			}
+			switch x := v.(type) {
+			case *ssa.BinOp:
+				walk(x.X, d+1)
+				walk(x.Y, d+1)
+			case *ssa.UnOp:
+				walk(x.X, d+1)
+			case *ssa.Call:
+				for _, a := range callArgs(x.Common()) {
+					walk(a, d+1)
+				}
+			case *ssa.Phi:
+				for _, e := range x.Edges {
+					walk(e, d+1)
+				}
+			}
+		}
+		walk(iff.Cond, 0)
+		if len(fieldsRead) > 0 {
+			bad++
+			r.Bad(name+":unconditional", p.InstrPos(iff), "a branch of CleanCache depends on set state %v: under that state a requested clean-up is skipped and stale entries survive it", fieldsRead)
+		}
+	}
+	if bad == 0 {
+		r.OK(name+":unconditional", p.Pos(f.Pos()), "branches depend only on the arguments")
+	}
 }
